@@ -19,10 +19,20 @@
 # OTHERWISE) ARISING IN ANY WAY OUT OF THE USE OF THIS SOFTWARE, EVEN IF ADVISED OF THE POSSIBILITY OF SUCH
 # DAMAGE.
 
+import decimal
 import typing
 from builtins import *
 
 import canmatrix
+
+
+def factor_text(factor):
+    # type: (typing.Any) -> str
+    """Exact plain decimal text of a factor ("%g" kept only 6 significant digits)."""
+    text = format(decimal.Decimal(str(factor)), "f")
+    if "." in text:
+        text = text.rstrip("0").rstrip(".")
+    return text
 
 
 def get_frame_info(db, frame):
@@ -117,7 +127,7 @@ def get_signal(db, frame, sig, motorola_bit_format):
     if sig.unit.strip():
         # factor not 1.0 ?
         if float(sig.factor) != 1:
-            back_array.append("%g" % float(sig.factor) + "  " + sig.unit)
+            back_array.append(factor_text(sig.factor) + "  " + sig.unit)
         # factor == 1.0
         else:
             back_array.append(sig.unit)
@@ -125,7 +135,7 @@ def get_signal(db, frame, sig, motorola_bit_format):
     else:
         # factor not 1.0 ?
         if float(sig.factor) != 1:
-            back_array.append("%g -" % float(sig.factor))
+            back_array.append(factor_text(sig.factor) + " -")
         # factor == 1.0
         else:
             back_array.append("")
